@@ -108,4 +108,19 @@ def run(rep, tier, seed, rng):
                    exhaustive=(tier != "quick"),
                    samples=[dict(request=reqs[i], case=cases[i][1], reply=impl[i]) for i in (0, len(reqs) // 2, len(reqs) - 4)],
                    outcome_classes=outcomes, vm_compute_crosschecked=nvm)
+    # end to end: which (builder, app) pairs are configured / not built because of the lists, incl. lists that
+    # come from defaults: and are extended by the app's own (data.rs convert_module)
+    from . import gen_common
+    from .. import directed
+    ecases = [c for c in gen_common.load_cases(rng, tier, 150, 2500) ]
+    lz, dr, results = gen_common.run_cases(ecases)
+    nlist = 0; ne2e = 0
+    for c, r in zip(ecases, results):
+        if any(("blocklist" in m or "allowlist" in m) for docs in c[0].values() for d in docs for m in (d.get("apps") or []) + [x for x in ((d.get("defaults") or {}).get("app"), (d.get("defaults") or {}).get("module")) if x]):
+            nlist += 1
+        if r["tags"] & {"configured", "nobuilds", "crash", "rc"}:
+            ne2e += 1
+            rep.violation("configured / not-built builds differ from the model (eligibility by allowlist, blocklist, ancestry): " + "; ".join(r["dis"])[:400],
+                          gen_common.replay_data(r), found_input=gen_common.same_builds(r) is False)
+    rep.cov.update(e2e_projects=len(ecases), e2e_projects_with_lists=nlist, e2e_disagreements=ne2e)
     rep.assumptions.append("ancestry requirement (app context must be the builder or an ancestor) is part of the configure model, see C01/C12 checks")
